@@ -934,6 +934,10 @@ class PGPMessage(Armorable, PGPObject):
     def _signed_text(self):
         # RFC 4880 7.1: trailing whitespace (spaces and tabs) at the end of any line is removed
         # when a cleartext signature is generated or verified
+        if self.type == 'literal':
+            # a signature over a literal message covers the octets of the literal data, whatever its format marker says
+            return bytes(self._message._contents)
+
         if self.type != 'cleartext':
             return self.message
 
@@ -2072,10 +2076,8 @@ class PGPKey(Armorable, ParentRef, PGPObject):
         if isinstance(subject, PGPMessage):
             if subject.type == 'cleartext':
                 sig_type = SignatureType.CanonicalDocument
-                subject = subject._signed_text
 
-            else:
-                subject = subject.message
+            subject = subject._signed_text
 
         sig = PGPSignature.new(sig_type, self.key_algorithm, hash_algo, self.fingerprint.keyid, created=prefs.pop('created', None))
 
@@ -2466,7 +2468,7 @@ class PGPKey(Armorable, ParentRef, PGPObject):
         if signature is None:
             if isinstance(subject, PGPMessage):
                 for sig in _filter_sigs(subject.signatures):
-                    sspairs.append((sig, subject._signed_text if subject.type == 'cleartext' else subject.message))
+                    sspairs.append((sig, subject._signed_text))
 
             if isinstance(subject, (PGPUID, PGPKey)):
                 sspairs += [ (sig, subject) for sig in _filter_sigs(subject.__sig__) ]
